@@ -435,6 +435,9 @@ class TJPTransformer(Transformer[Any, Any]):
 
     # Named task attribute rules
     def task_start(self, items: list[Any]) -> tuple[str, Any]:
+        if isinstance(items[0], Token) and items[0].type == "MACRO_REF":
+            # the pre-processor has expanded every macro it knows
+            raise ValueError(f"start: undefined macro {items[0]}")
         return ("start", items[0])
 
     def task_end(self, items: list[Any]) -> tuple[str, Any]:
